@@ -147,6 +147,12 @@ class CoordMath:
         if isinstance(ind, str):
             ind = Symbol(ind)
 
+        if ind not in self.trans:
+            raise ValueError(
+                "Coordinate " +
+                str(ind) +
+                " cannot be computed from the ranks in the loop order")
+
         return self.trans[ind]
 
     def prune(self, avail_roots: Set[str]) -> None:
